@@ -31,7 +31,7 @@ std::string cmp_content(const dec::File & f, const Model & m, bool prefix_ok, Ca
         const SigM & s = kv.second;
         const dec::SignalDef * g = f.signal(kv.first);
         if (!g) { if (prefix_ok) continue; return dec::sf("signal %d not found by the decoder", kv.first); }
-        if (g->source_id != s.def.src || g->signal_type != s.def.stype || g->data_type != s.dt->code) return dec::sf("signal %d definition fields differ", kv.first);
+        if (g->source_id != s.def.src || g->signal_type != s.def.stype || g->data_type != (s.dt->code | ((uint32_t) (s.def.q & 0xff) << 16))) return dec::sf("signal %d definition fields differ", kv.first);
         auto S = [](const OptStr & o) { return o.null ? std::string() : o.str(); };
         if (g->name != S(s.def.name) || g->units != S(s.def.units)) return dec::sf("signal %d strings differ", kv.first);
         if (!s.fsr) continue;
@@ -162,6 +162,7 @@ std::string cmp_reader(const char * path, const dec::File & f, const Model & m, 
 }  // namespace
 
 std::string prop_generate(Tape & t, int size) {
+    gen_allow_q() = true;   // integer signals may carry a fixed-point exponent in their data type
     GenOpts go;
     go.allow_big = size >= 50;
     go.allow_gaps = true;
